@@ -402,8 +402,84 @@ def run(prog, rep, tier):
     rep.examined(R42, "month_bB_to_month_m_bytes|language", sample={"accepted_month_strings": len(months), "examples": sorted(months)[:6]})
     if len(months) < 60:
         raise CheckerError("month_bB_to_month_m_bytes: only %d accepted strings enumerated" % len(months))
+    # R4.7 Unix-epoch rows denote an instant.  chrono parses `%s` to the UTC NaiveDateTime of that instant;
+    # rows whose notation carries no zone go through the zone-less branch of datetime_parse_from_str,
+    # where the naive value is read as wall clock in --tz-offset.  For epoch rows that reading must not
+    # be reachable: the local-reading constructor is dominated by the false edge of a test for `%s`
+    # in the pattern, and the true edge reads the value as UTC.
+    R47 = rep.rule("R4.7", "zone-less Unix-epoch rows are read as the UTC instant, not as wall clock in --tz-offset")
+    import instant as _inst
+    rows_ = facts.const(DT + "DATETIME_PARSE_DATAS")
+    ep_rows = [i for i, r in enumerate(rows_) if r["fields"]["dtfs"]["fields"]["epoch"]["variant"] != "_none" and r["fields"]["dtfs"]["fields"]["tz"]["variant"] == "_none"]
+    pb_ = prog.body(DT + "datetime_parse_from_str")
+    calls_ = {c.bb: c for c in pb_.live_calls()}
+    loc = [c for c in calls_.values() if _inst._kind(c) == "local_ctor" and
+           any(o[0] == "call" and o[2].endswith("NaiveDateTime::parse_from_str") for a in c.args if a[0] != "k" for o in pb_.origins(a, through_calls=_inst.THROUGH))]
+    utc = [c for c in calls_.values() if _inst._kind(c) == "utc_ctor" and
+           any(o[0] == "call" and o[2].endswith("NaiveDateTime::parse_from_str") for a in c.args if a[0] != "k" for o in pb_.origins(a, through_calls=_inst.THROUGH))]
+    gates = []
+    for c in calls_.values():
+        if c.d.endswith("::contains") and "str" in c.d and c.target is not None:
+            cs = [a[2] for a in c.args if a[0] == "k"] + [o[1] for a in c.args if a[0] != "k" for o in pb_.origins(a) if o[0] == "const"]
+            if any("%s" in str(x) for x in cs):
+                t_ = pb_.term(c.target)
+                if t_[0] == "switch" and op_local(t_[1]) == c.dest[0]:
+                    arms_ = {int(v): tb for v, tb in t_[2]}
+                    if 0 in arms_:
+                        gates.append((arms_[0], t_[3]))
+    rep.examined(R47, "datetime_parse_from_str|epoch", sample={"zone-less epoch rows": len(ep_rows), "wall-clock readings of the parsed naive value": [c.line for c in loc],
+                                                              "UTC readings": [c.line for c in utc], "tests for %s in the pattern": len(gates)})
+    if ep_rows:
+        if not loc and not utc:
+            raise CheckerError("datetime_parse_from_str: no constructor applied to the parsed naive value (idiom not recognised)")
+        for c in loc:
+            if not any(pb_.dominates(f_, c.bb) for (f_, t__) in gates):
+                rep.violation(R47, "datetime_parse_from_str|epoch|wall-clock", "datetime_parse_from_str: rows %s match a bare Unix epoch (no zone), and the parsed value is read as wall clock in --tz-offset by %s (line %d) "
+                              "without excluding `%%s` patterns: '1600000000' is dated 2020-09-13T12:26:40 in the --tz-offset zone instead of 12:26:40Z" % (ep_rows[:4], c.d.split("::")[-1], c.line))
+        if loc and not any(any(pb_.dominates(t__, u.bb) for (f_, t__) in gates) for u in utc):
+            rep.violation(R47, "datetime_parse_from_str|epoch|utc", "datetime_parse_from_str: no UTC reading of the parsed value under the `%s` test; epoch rows cannot resolve to their instant")
+
+    # R4.6 sibling agreement inside the two name tables: every spelling of one month (case, long form,
+    # trailing dot) yields the same month number, which is its calendar number; upper- and lowercase
+    # spellings of one zone name denote the same offset
+    R46 = rep.rule("R4.6", "all spellings of one month name / one zone name denote the same month / offset")
+    CAL = {"jan": "01", "feb": "02", "mar": "03", "apr": "04", "may": "05", "jun": "06", "jul": "07", "aug": "08", "sep": "09", "oct": "10", "nov": "11", "dec": "12"}
+    by3 = {}
+    for name, val in months.items():
+        by3.setdefault(name.lower()[:3], {}).setdefault(val if isinstance(val, str) else repr(val), []).append(name)
+    for k3, vals in sorted(by3.items()):
+        rep.examined(R46, "month|" + k3, sample={"month": k3, "spellings": sum(len(v) for v in vals.values()), "values": sorted(vals)})
+        if k3 not in CAL:
+            rep.violation(R46, "month|%s|unknown" % k3, "month_bB_to_month_m_bytes accepts %s, which is not a month name" % sorted(sum(vals.values(), []))[:3])
+            continue
+        wrong = {v: n for v, n in vals.items() if v != CAL[k3]}
+        if wrong:
+            v, n = sorted(wrong.items())[0]
+            rep.violation(R46, "month|%s|value" % k3, "month_bB_to_month_m_bytes: the spelling(s) %s of month %s are converted to month %s (other spellings give %s); such timestamps are dated in the wrong month" % (
+                sorted(n)[:4], CAL[k3], v, sorted(set(vals) - {v}) or [CAL[k3]]))
+    if len(by3) < 12:
+        rep.violation(R46, "month|coverage", "month_bB_to_month_m_bytes accepts spellings of only %d months" % len(by3))
     zmap = facts.const(DT + "MAP_TZZ_TO_TZz")
     zkeys = set(e[0] for e in zmap["fields"]["entries"])
+
+    def _off(v):
+        if v == "":
+            return "ambiguous"
+        import re as _re
+        m_ = _re.match(r"^([+-])(\d\d):(\d\d)$", v)
+        if not m_:
+            return "malformed:" + v
+        return (1 if m_.group(1) == "+" else -1) * (int(m_.group(2)) * 3600 + int(m_.group(3)) * 60)
+    zd = {}
+    for e in zmap["fields"]["entries"]:
+        zd.setdefault(e[0].lower(), {})[e[0]] = _off(e[1])
+    nz = 0
+    for low, sp in sorted(zd.items()):
+        nz += 1
+        if len(set(sp.values())) > 1:
+            rep.violation(R46, "zone|%s" % low, "MAP_TZZ_TO_TZz: the spellings %s of one zone name map to different offsets %s; a timestamp using one of them is shifted by the difference" % (
+                sorted(sp), sorted(map(str, set(sp.values())))))
+    rep.examined(R46, "zone|case-agreement", sample={"zone_names": nz, "entries": len(zmap["fields"]["entries"])})
     buflen = None
     for p_, c in facts.consts.items():
         if p_.endswith("::BUFLEN") and isinstance(c["value"], int) and "datetime" in p_:
